@@ -1,6 +1,8 @@
 """C07 - an instruction's effect depends only on architectural state."""
 from __future__ import annotations
 
+import re
+
 import corr
 from checks import cpu, execgen, c06
 
@@ -114,6 +116,15 @@ def run(ctx):
         # split either right after the store (the continuation starts in a core that never saw the old bytes) or anywhere
         k = (1 + g0 + 1) if rng.random() < 0.6 else rng.randint(1, n - 1)
         selfmod.append(((code, 0x100, regs, mem, 0), n, k))
+    # low-power instructions executed twice in one core: HALT/OFF, the status registers rewritten by the program, HALT/OFF
+    # again - the second one must do what a core that never saw the first one does
+    lowpower = []
+    for _ in range(200 if ctx.tier == "thorough" else 40):
+        regs = execgen.rand_regs(rng)
+        mem = execgen.rand_mem(rng)
+        a, b = rng.choice(["de", "df"]), rng.choice(["de", "df"])
+        code = a + "30ccf8%02x" % rng.randrange(256) + "30ccff%02x" % rng.choice([0, 0xFB, rng.randrange(256)]) + b + "0000"
+        lowpower.append(((code, 0x100, regs, mem, 0), 5, rng.choice([3, 3, 1, 2])))
     allp = progs + extra
     plines = []
     for case, n in allp:
@@ -122,6 +133,10 @@ def run(ctx):
     for case, n, k in selfmod:
         plines.append(execgen.fmt(case) + f" {k} {n - k}")
     ctx.count("self_modifying_cases", len(selfmod))
+    nh_from = len(plines)
+    for case, n, k in lowpower:
+        plines.append(execgen.fmt(case) + f" {k} {n - k} nh")
+    ctx.count("repeated_low_power_cases", len(lowpower))
     so = corr.run_streams(ctx, plines, {"py": ("py", "exec_split"), "rs": ("rs", "exec_split")})
     for l, p, r in zip(plines, so["py"], so["rs"]):
         for core, ans in (("py", p), ("rs", r)):
@@ -132,6 +147,9 @@ def run(ctx):
                 continue
             a, b = ans.split(" || ")
             a, b = a.split(" | len:")[0], b.split(" | len:")[0]
+            if l.endswith(" nh"):
+                # the continuation started without the low-power flag: registers, flags and memory are compared
+                a, b = re.sub(r" halted=\d", "", a), re.sub(r" halted=\d", "", b)
             if cpu.canon_err(a) != cpu.canon_err(b):
                 ctx.report([core, "run_N_plus_M_differs_from_N_then_M"], "one run of N+M steps and a run of N steps continued in a fresh core for M steps end in different architectural states",
                            {"case": "exec_split " + l, "whole": a[:300], "split": b[:300]})
